@@ -54,6 +54,13 @@ static void setD(const int *d, vcase *c)
     c->vals = (g_mode == 5 ? (int[]){ 2, 15, 4, 1 }[d[2]] : (int[]){ 2, 15, 8, 1 }[d[2]]); c->colperm = (int[]){ 3, 2, 0 }[d[3]]; c->trans = d[4]; c->equil = d[5]; common_flags(c, d[6]); c->stor = d[7];
     set_tune(c, (int[]){ 0, 11, 5 }[d[8]]); c->type = d[9]; c->u = U_LIST[d[1] % 2]; c->nrhs = 1 + (d[1] % 3 == 0); c->ldbx = d[1] % 2; c->rhs = d[1] % 5; c->permid = -1;
 }
+/* E (C05): uniformly huge / tiny magnitudes - |a| far inside the floating-point range, |a|^2 outside it (equilibration does not touch a uniform scaling) */
+static void setE(const int *d, vcase *c)
+{
+    c->n = c->m = 6; c->pat = dev1_pattern(6, base_pattern(6, d[0]), d[1]); c->vals = 19 + d[2]; c->colperm = 0; c->trans = d[3]; c->equil = d[4];
+    common_flags(c, d[5]); c->stor = d[6]; set_tune(c, TUNE_X[d[7]]); c->type = d[8]; c->u = 1.0; c->nrhs = 1 + (d[1] % 2); c->ldbx = d[1] % 2; c->rhs = (d[1] % 2) * 3 + 1; c->permid = -1;
+}
+#define FAM_E { "DEV_1(BASE(6)) first 12 deviations x {V19 = V1*2^70|2^600, V20 = V1*2^-75|2^-600} x NATURAL x trans3 x equil2 x refine2 x stor2 x tune{0,3} x type4", 9, { 9, 12, 2, 3, 2, 2, 2, 2, 4 }, setE }
 #define FAM_Dq { "order 12: 11 structured + 24 generated patterns x vals2 x {COLAMD,MMD_AT+A} x trans3 x equil2 x refine2 x stor2 x tune{default,(6,2,6..)} x type4", 10, { 1, 35, 2, 2, 3, 2, 2, 2, 2, 4 }, setD }
 #define FAM_D { "orders 12,10,16: 11 structured + 60 generated patterns x vals4 x {COLAMD,MMD_AT+A,NATURAL} x trans3 x equil2 x refine2 x stor2 x tune{default,(6,2,6..),(3,1,4..)} x type4", 10, { 3, 71, 4, 3, 3, 2, 2, 2, 3, 4 }, setD }
 /* S (C12, C04x): every pattern of ALL(1..3) (singular included) x exact value schemes: growth factor of singular factorizations */
@@ -79,7 +86,7 @@ static void setS4x(const int *d, vcase *c) { setS4(d, c); c->growth = (d[0] >> 7
 #define FAM_S { "ALL(1..3) incl. singular x {V0,V1,V6} x colperm3 x equil2 x type4 x tune3 x stor2 x trans3", 8, { N_ALL123, 3, 3, 2, 4, 3, 2, 3 }, setS }
 #define FAM_S4 { "ALL(4) incl. singular x {V0,V1,V6} x equil2 x type4 x tune3", 5, { N_ALL4, 3, 2, 4, 3 }, setS4 }
 #define FAM_S4q { "ALL(4) incl. singular x {V0,V1,V6} x equil2 x type4 x tune{0}", 5, { N_ALL4, 3, 2, 4, 1 }, setS4 }
-static const family FAM05[] = { FAM_A(7), FAM_B, FAM_C(7), FAM_D }, FAM05q[] = { FAM_Aq(7), FAM_B, FAM_Cq(7), FAM_Dq };
+static const family FAM05[] = { FAM_A(7), FAM_B, FAM_C(7), FAM_D, FAM_E }, FAM05q[] = { FAM_Aq(7), FAM_B, FAM_Cq(7), FAM_Dq, FAM_E };
 static const family FAM12[] = { FAM_A(10), FAM_B, FAM_C(10), FAM_S, FAM_S4, FAM_D }, FAM12q[] = { FAM_Aq(10), FAM_B, FAM_Cq(10), FAM_S, FAM_S4q, FAM_Dq };
 static const family FAM13[] = { FAM_A(10), FAM_B, FAM_C(10), FAM_D }, FAM13q[] = { FAM_Aq(10), FAM_B, FAM_Cq(10), FAM_Dq };
 #define FAM_SX { "ALL(1..3) incl. singular x {V0,V1,V6} x colperm3 x equil2 x type4 x tune3 x stor2 x trans3 x PivotGrowth2 x ConditionNumber2", 9, { N_ALL123, 3, 3, 2, 4, 3, 2, 3, 4 }, setSx }
@@ -88,7 +95,7 @@ static const family FAM13[] = { FAM_A(10), FAM_B, FAM_C(10), FAM_D }, FAM13q[] =
 static const family FAM04X[] = { FAM_SX, FAM_S4X }, FAM04Xq[] = { FAM_SX, FAM_S4Xq };
 #define NF(F) ((int)(sizeof F / sizeof *F))
 /* other build variants (vendor BLAS, sanitizers): the ALL(1..3) and DEV_1 families only */
-static const family FAM05v[] = { FAM_Aq(7), FAM_Cq(7), FAM_Dq }, FAM12v[] = { FAM_Aq(10), FAM_Cq(10), FAM_S, FAM_Dq }, FAM13v[] = { FAM_Aq(10), FAM_Cq(10), FAM_Dq }, FAM04Xv[] = { FAM_SX };
+static const family FAM05v[] = { FAM_Aq(7), FAM_Cq(7), FAM_Dq, FAM_E }, FAM12v[] = { FAM_Aq(10), FAM_Cq(10), FAM_S, FAM_Dq }, FAM13v[] = { FAM_Aq(10), FAM_Cq(10), FAM_Dq }, FAM04Xv[] = { FAM_SX };
 #define DEFSPACE(tag, F, Fq, Fv, mode) \
     static const family *pick_##tag(int tier, int *nf) { if (strcmp(wk_variant, "ref")) { *nf = NF(Fv); return Fv; } if (tier) { *nf = NF(F); return F; } *nf = NF(Fq); return Fq; } \
     static long sz_##tag(int tier) { int nf; const family *f = pick_##tag(tier, &nf); return fam_total(f, nf); } \
